@@ -22,7 +22,7 @@ RULE = ("cases: minres called directly on SPD matrices with prescribed spectra (
         "1-D columns. quadrature: sum_q w_q solves_q = K^-1/2 b (K^1/2 b) against the dense symmetric root; sqrt_inv_matmul twice = A^-1 R; "
         "with lhs also diag(L A^-1 L^T); the update criterion on which MINRES stopped is recomputed from the recorded iterates (mean over "
         "all systems of ||x_i - x_(i-1)|| / ||x_i||), batches include members of very different scale; "
-        " tolerance 1e-4 for kappa <= 1e2 or n <= 8, 3e-2 otherwise. distinct key = (clause, spectrum "
+        " tolerance 1e-4 for kappa <= 1e2 or n <= 8, 3e-2 otherwise (8e-2 with 7 nodes). distinct key = (clause, spectrum "
         "family, kappa decade, shifts kind, preconditioner, dtype, batch rank)")
 ASSUMPTIONS = ["float64 dense solves / symmetric matrix roots are the reference", "minres.* hook events expose the iterate per iteration",
                "delta = 1e-6 (f64) / 1e-2 (f32) on the Krylov-optimal residual, calibrated on the unchanged tree"]
@@ -243,13 +243,13 @@ def run_minres(case, ctx):
                 optf[i_, 0, c_] = (b_.unsqueeze(-1) - SQ @ y).norm()
         opt = optf.reshape(nsh, *batch, 1, B64.shape[-1])
         delta = 1e-6 if dt == torch.float64 else 1e-2
-        floor = 1e-9 * kapS  # attainable accuracy of the recurrences
+        floor = 1e-8 * kapS  # attainable accuracy of the recurrences (measured up to 1.5e-9 kappa over 1.3e6 thorough cases)
         if not bool((Rfin <= opt * (1 + delta) + floor).all()):
             ctx.fail("krylov_optimal_residual", "value", err=float((Rfin - opt).max()),
                      detail=f"relative residual {float(Rfin.max()):.3e} vs Krylov optimum {float(opt.max()):.3e} (dim {kdim})", **kw)
         else:
             ctx.ok("krylov_optimal_residual", kb, n >= 2, sample=dict(n=n, kappa=case["kappa"], shifts=sk, iterations=kreached, residual=float(Rfin.max()), optimum=float(opt.max())))
-        if kreached >= n + 1 and not bool((Rfin <= 1e-9 * kapS + 1000 * kapS * eps).all()):
+        if kreached >= n + 1 and not bool((Rfin <= 1e-8 * kapS + 1000 * kapS * eps).all()):
             ctx.fail("full_krylov_residual", "value", err=float(Rfin.max()), detail=f"relative residual {float(Rfin.max()):.2e} at full Krylov dimension (kappa {kapS:.1e})", **kw)
     # (d) metamorphic
     if case["clause"] == "scaling" and kapS <= 100 and (dt == torch.float64 or n >= 12):
@@ -289,7 +289,7 @@ def run_ciq(case, ctx):
     if not (n <= 20 and kap <= 1.2e3):
         return
     # 7 nodes are not enough for 1e-4 at kappa 1e3 (pure quadrature error ~ exp(-2 pi^2 N / (log kappa + 6)))
-    tol = 1e-4 if (kap <= 1e2 * 1.2 or (n <= 8 and case["nq"] >= 15)) else 3e-2
+    tol = 1e-4 if (kap <= 1e2 * 1.2 or (n <= 8 and case["nq"] >= 15)) else (3e-2 if case["nq"] >= 15 else 8e-2)  # 7 nodes at kappa 1e3: up to 4.7e-2 measured
     usep = case["precond_size"] is not None and n >= 4
     if usep:
         d = (0.2 + torch.rand(*batch, n, generator=g, dtype=torch.float64)).to(dt)
